@@ -1290,6 +1290,11 @@ class Expr:
             if isinstance(result, VyperValue):
                 return result
             result_typ = node._metadata["type"]
+            if result_typ is not None and not result_typ._is_prim_word and result_typ is not VOID_TYPE:
+                # a builtin which hands back a bare operand for a non-word
+                # type (e.g. convert(String -> Bytes), a pointer cast) returns a
+                # memory pointer: callers (len, raw_create, ...) need a location
+                return self._make_ptr_value(result, DataLocation.MEMORY, result_typ)
             return VyperValue.from_stack_op(result, result_typ)
 
         # Struct constructor: MyStruct(field1=val1, field2=val2)
